@@ -1790,4 +1790,55 @@ theorem inherited_attribution (bases : Nat → List Nat) (hA : Acyclic bases) (e
   · rintro ⟨h1, h2, h3⟩; exact ⟨h1, h2, fun e => h3 (by rw [e])⟩
   · rintro ⟨h1, h2, h3⟩; exact ⟨h1, h2, fun e => h3 (by simpa using e.symm)⟩
 
+/-! ## 12. Class-private names (`__name`)
+
+Python mangles an identifier `__x` used in the body of class `c` to `_c__x`: seen from `c`, only `c`
+itself can define that attribute.  pydoctor relates members of different classes by their unmangled
+name.  Full statement (false of the code): for every `name`, class-private ones included,
+`getDocstring … owns … c name = PyMro.docSource … (mangledOwns priv owns c) … c name` and
+`overrides … owns … c name = PyMro.superLookup … (mangledOwns priv owns c) c name`. -/
+
+/-- which classes define the attribute that the spelling `n` denotes in the body of class `c` -/
+def mangledOwns (priv : Nat → Bool) (owns : Nat → Nat → Bool) (c : Nat) : Nat → Nat → Bool :=
+  fun b n => if priv n then (b == c && owns b n) else owns b n
+
+theorem mangledOwns_public (priv : Nat → Bool) (owns : Nat → Nat → Bool) (c name : Nat)
+    (h : priv name = false) : (fun b => mangledOwns priv owns c b name) = fun b => owns b name := by
+  funext b; simp [mangledOwns, h]
+
+/-- **docsource_eq_getdoc_partial**: for a name Python does not mangle, the docstring source and
+the "overrides" member are those of attribute lookup, also when mangling is taken into account.
+Excluded: class-private names (`docsource_private_name_counterexample`). -/
+theorem docsource_eq_getdoc_partial (bases : Nat → List Nat) (hA : Acyclic1 bases) (ext priv : Nat → Bool)
+    (owns hasDoc : Nat → Nat → Bool) (c name : Nat) (hc : 0 < c) (l : List Nat)
+    (hacc : mro bases c = some l) (hcext : ext c = false)
+    (hext : ∀ x, ext x = true → owns x name = false) (hobj : owns 0 name = false)
+    (hpub : priv name = false) :
+    getDocstring bases ext owns hasDoc c name
+        = PyMro.docSource (PyMro.withObject bases) (mangledOwns priv owns c) hasDoc c name
+    ∧ overrides bases ext owns c name
+        = PyMro.superLookup (PyMro.withObject bases) (mangledOwns priv owns c) c name := by
+  have hm := mangledOwns_public priv owns c name hpub
+  constructor
+  · rw [docsource_eq_getdoc bases hA ext owns hasDoc c name hc l hacc hcext hext hobj]
+    simp only [PyMro.docSource]
+    have : (fun b => mangledOwns priv owns c b name && hasDoc b name) = fun b => owns b name && hasDoc b name := by
+      funext b; rw [congrFun hm b]
+    simp only [this]
+  · rw [overrides_eq_super bases hA ext owns c name hc l hacc hcext hext hobj]
+    simp only [PyMro.superLookup, hm]
+
+/-- 1 defines `__x` (name 7) with a docstring, 2(1) defines `__x` without: pydoctor lets 2's member
+inherit 1's docstring and says it overrides 1's; for Python `_2__x` has no docstring to inherit and
+overrides nothing (`_1__x` is another attribute). -/
+theorem docsource_private_name_counterexample :
+    let owns := fun (c n : Nat) => n == 7 && (c == 1 || c == 2)
+    let hasDoc := fun (c n : Nat) => n == 7 && c == 1
+    let priv := fun (n : Nat) => n == 7
+    getDocstring exBases (fun _ => false) owns hasDoc 2 7 = some 1
+    ∧ PyMro.docSource (PyMro.withObject exBases) (mangledOwns priv owns 2) hasDoc 2 7 = none
+    ∧ overrides exBases (fun _ => false) owns 2 7 = some 1
+    ∧ PyMro.superLookup (PyMro.withObject exBases) (mangledOwns priv owns 2) 2 7 = none := by
+  decide
+
 end Mro
